@@ -144,7 +144,9 @@ pub enum CompactsE {
     },
 }
 
-#[derive(TypeInfo, parity_scale_codec::Encode, parity_scale_codec::Decode, parity_scale_codec::CompactAs)]
+#[derive(
+    TypeInfo, parity_scale_codec::Encode, parity_scale_codec::Decode, parity_scale_codec::CompactAs,
+)]
 pub struct W(pub u32);
 
 #[derive(TypeInfo)]
